@@ -81,6 +81,9 @@ CALLS = ["getitem", "getitem_absent", "all_features", "features_of_type", "child
          "seqids", "iter_by_parent_childs"]
 
 
+FAILED_WRITES = ["failed_add_relation", "failed_delete"]
+
+
 def gen_cases(rng, tier):
     cases = []
     n = 150 if tier == "quick" else 3000
@@ -101,6 +104,11 @@ def gen_cases(rng, tier):
     m = 150 if tier == "quick" else 3000
     for i in range(m):
         calls = [{"c": rng.choice(CALLS), "r": rng.randrange(10 ** 6)} for _ in range(rng.choice([3, 5, 8, 12]))]
+        if i % 3 == 2:
+            # one FeatureDB object on which a write call failed half-way: the reads that follow must not make its partial
+            # work permanent (the file still holds what it held when the object is closed)
+            for _ in range(rng.choice([1, 2])):
+                calls.insert(rng.randrange(len(calls)), {"c": rng.choice(FAILED_WRITES), "r": rng.randrange(10 ** 6)})
         cases.append({"k": "reads", "feats": hierarchy(rng), "calls": calls})
     return cases
 
@@ -160,9 +168,18 @@ def do_call(db, call, feats):
     if c == "features_of_type":
         return list(db.features_of_type(rng.choice(["exon", "gene", "nope"]), order_by=rng.choice([None, "start"])))
     if c == "children":
-        return list(db.children(rng.choice(ids), level=rng.choice([None, 1, 2]), featuretype=rng.choice([None, "exon"])))
+        return list(db.children(rng.choice(ids), level=rng.choice([None, 1, 2, 3, 4]), featuretype=rng.choice([None, "exon"])))
     if c == "parents":
-        return list(db.parents(rng.choice(ids), level=rng.choice([None, 1, 2])))
+        return list(db.parents(rng.choice(ids), level=rng.choice([None, 1, 2, 3, 4])))
+    if c == "failed_add_relation":
+        # a write that raises half-way (the caller's child_func fails): its partial work is never committed
+        def boom(parent, child):
+            raise KeyError("child_func failed")
+        a, b = rng.choice(ids), rng.choice(ids)
+        return db.add_relation(a, b, rng.choice([1, 2]), child_func=boom)
+    if c == "failed_delete":
+        # the second item cannot be turned into an id: delete() raises after the first DELETE statements, before its commit
+        return db.delete([rng.choice(ids), None])
     if c == "region":
         form = rng.choice(["tuple", "str", "feature", "kw"])
         cw = rng.random() < 0.5
@@ -258,11 +275,17 @@ def run_impl(c):
         db.conn.set_trace_callback(trace.append)
         errs = []
         for call in c["calls"]:
+            failing = call["c"] in FAILED_WRITES
+            if failing:
+                db.conn.set_trace_callback(None)          # its statements are writes by design; only the reads are traced
             try:
-                do_call(db, call, c["feats"])
+                do_call(db, call, c["feats"])     # (a "failing" write that does not raise commits, and the file differs)
             except Exception as ex:
-                errs.append(L.err_class(ex))
+                if not failing:
+                    errs.append(L.err_class(ex))
                 del ex
+            if failing:
+                db.conn.set_trace_callback(trace.append)
         db.conn.set_trace_callback(None)
         db.conn.close()
         del db
@@ -290,8 +313,8 @@ def coq_case(c, o):
     tr = []
     for k in o["trace"]:
         tr.append("StSelect" if k == "select" else "StPragma" if k == "pragma" else "(StWrite %s)" % L.s(k[6:]))
-    calls = L.lst(["(RMerge [%s])" % L.s("exon") if x["c"] in ("merge", "children_bp_merge") else "RPure" for x in c["calls"]],
-                  "readop")
+    calls = L.lst(["(RMerge [%s])" % L.s("exon") if x["c"] in ("merge", "children_bp_merge") else
+                   "RFailedWrite" if x["c"] in FAILED_WRITES else "RPure" for x in c["calls"]], "readop")
     obs = "(mkReadObs %s %s %s %s %s %s)" % (imp.coq_tables(o["before"]), imp.coq_tables(o["after"]), L.b(o["meta_same"]),
                                              L.b(o["bytes_same"]), L.lst(tr, "stmt"),
                                              L.lst([L.ERR[e] for e in o["errors"]], "err"))
